@@ -777,7 +777,64 @@ def rule_taproot_python_arm(ctx: Ctx, rep: Report) -> None:
     rep.floor("C04.taproot_python_arm", 3)
 
 
+RAW_KEY_PROVED_OK = {
+    "btclib.curves.sec_point._mult_sec_var": "private; both callers (silent_payments, ecies) hand it the octets pub_keyinfo_from_pub_key answered, which point_from_octets has already refused if hybrid",
+}
+
+
+def rule_raw_key_admission(ctx: Ctx, rep: Report) -> None:
+    """C04.raw_key_admission: libsecp256k1's ec_pubkey_parse admits the hybrid
+    06/07 prefixes always; `point_from_octets` admits them only when asked
+    (`hybrid=True`). Where the bindings arm is handed a key parameter's octets
+    as they came and the Python arm parses the same parameter itself, the
+    Python arm asks for them -- else CHECKSIG with a hybrid key (valid wherever
+    STRICTENC is off) succeeds with the bindings and fails without."""
+    rule = "C04.raw_key_admission"
+    n = 0
+    for q, fi in sorted(ctx.prog.functions.items()):
+        ifs = [i for i in own_nodes(fi.node) if isinstance(i, ast.If) and any(isinstance(c, ast.Call) and call_name(c) == "_libsecp256k1_serves" for c in ast.walk(i.test))]
+        if not ifs:
+            continue
+        params = set(fi.params())
+        for i in ifs:
+            inside = {id(x) for s_ in i.body for x in ast.walk(s_)}
+            raw = {a.id for s_ in i.body for c in ast.walk(s_) if isinstance(c, ast.Call) for a in c.args if isinstance(a, ast.Name) and a.id in params}
+            for c in own_nodes(fi.node):
+                if isinstance(c, ast.Call) and call_name(c) == "point_from_octets" and id(c) not in inside and c.args and isinstance(c.args[0], ast.Name) and c.args[0].id in raw:
+                    n += 1
+                    ok = any(k.arg == "hybrid" and isinstance(k.value, ast.Constant) and k.value.value is True for k in c.keywords)
+                    if not ok and q in RAW_KEY_PROVED_OK:
+                        rep.ob(rule, f"{q}:{c.args[0].id}", True, fi.where(c), f"reviewed: {RAW_KEY_PROVED_OK[q]}")
+                        continue
+                    rep.ob(rule, f"{q}:{c.args[0].id}", ok, fi.where(c), "the Python arm parses the key with hybrid=True, as ec_pubkey_parse does" if ok else
+                           f"`{norm(c)}`: the bindings arm is handed `{c.args[0].id}` raw and parses 06/07 keys; this arm refuses them -- the two arms give different verdicts on a hybrid key")
+    rep.floor(rule, 1)
+
+
+def rule_fixed_size_library_args(ctx: Ctx, rep: Report) -> None:
+    """C04.fixed_size_library_args: `libsecp256k1_xonly.tweak_add_check` takes a
+    32-byte output key and raises ValueError for any other length, where the
+    Python arm compares integers and answers a bool for every length. Its
+    handler attributes every ValueError to the *internal* key, so the call is
+    made only where the output key's length is known to be 32 (a test of
+    `len(q) == 32` on the path)."""
+    rule = "C04.fixed_size_library_args"
+    n = 0
+    for fi, call in _bindings_calls(ctx):
+        if not norm(call.func).endswith("tweak_add_check") or not call.args or not isinstance(call.args[0], ast.Name):
+            continue
+        n += 1
+        x = call.args[0].id
+        facts = ctx.cfg(fi).facts_at_ast(call)
+        ok = any(pol and str(t).replace(" ", "") in (f"len({x})==32", f"32==len({x})") for t, pol in facts)
+        rep.ob(rule, f"{fi.qualname}:{x}", ok, fi.where(call), f"called only where len({x}) == 32" if ok else
+               f"`{norm(call)[:70]}` is reached with `{x}` of any length: the bindings raise where the Python arm answers, and the handler blames the internal key")
+    rep.floor(rule, 1)
+
+
 RULES = [
+    ("C04.raw_key_admission", rule_raw_key_admission),
+    ("C04.fixed_size_library_args", rule_fixed_size_library_args),
     ("C04.taproot_python_arm", rule_taproot_python_arm),
     ("C04.one_comparator", rule_one_comparator_),
     ("C04.single_door", rule_single_door),
